@@ -52,7 +52,10 @@ func (c *fastCollector) PutMany(_ context.Context, bs []blocks.Block) error {
 	return nil
 }
 
-var verifyingReaders = []string{"v2br", "inspect", "root", "rootload", "rootloadfast", "v1", "v1load"}
+var verifyingReaders = []string{"v2br", "inspect", "root", "rootload", "rootloadfast", "v1", "v1load",
+	// not a verifying reader, but a scanning one: BlockReader driven with SkipNext only. It is held to the
+	// truncation clause (and to returning the right CID sequence of a valid archive), not to the hash clause.
+	"v2skip"}
 
 func readerNeedsReaderAt(reader string) bool { return reader == "inspect" }
 
@@ -77,6 +80,21 @@ func scanWith(reader string, data []byte, profile string, del sim.Delivery, opts
 					return
 				}
 				res.blocks = append(res.blocks, retBlk{b.Cid(), b.RawData()})
+			}
+		case "v2skip":
+			br, err := carv2.NewBlockReader(src.(io.Reader), opts.Options()...)
+			if err != nil {
+				res.constructErr = err
+				return
+			}
+			for {
+				md, err := br.SkipNext()
+				if err != nil {
+					res.endErr = err
+					res.clean = err == io.EOF
+					return
+				}
+				res.blocks = append(res.blocks, retBlk{md.Cid, nil})
 			}
 		case "inspect":
 			rd, err := carv2.NewReader(src.(io.ReaderAt), opts.Options()...)
@@ -153,6 +171,9 @@ func judgeC02(l *Layout, m Mut, reader string, res scanResult) *Violation {
 	}
 	// (1) whatever was returned hashes to its CID
 	for i, b := range res.blocks {
+		if reader == "v2skip" {
+			break // SkipNext returns metadata only
+		}
 		if !Honest(b.c, b.data) {
 			return viol("medium/corrupt-block-returned/"+reader, "%s returned block #%d %s whose %d bytes do not hash to it (after %s)", reader, i, b.c, len(b.data), m)
 		}
@@ -185,7 +206,7 @@ func judgeC02(l *Layout, m Mut, reader string, res scanResult) *Violation {
 		}
 	case "flip":
 		region, _ := l.Region(m.Off)
-		if region == "sec-data" || region == "sec-digest" {
+		if reader != "v2skip" && (region == "sec-data" || region == "sec-digest") {
 			if !reported {
 				return viol("medium/corruption-unreported/"+reader+"@"+region, "%s ended cleanly (%d blocks) although bit %d of byte %d (%s) was flipped", reader, len(res.blocks), m.Bit, m.Off, region)
 			}
